@@ -441,7 +441,7 @@ class HttpParser:
                     continue
                 # Ref: https://datatracker.ietf.org/doc/html/rfc2616#section-5.1
                 parts = line.split(WHITESPACE, 2)
-                if len(parts) == 3:
+                if len(parts) == 3 and parts[0]:
                     self.method = parts[0]
                     if self.method == httpMethods.CONNECT:
                         self._is_https_tunnel = True
